@@ -466,4 +466,351 @@ theorem regionFwd_some_iff (env : MapEnv) (s : Spec) (m : Mem) : ∀ n r x, regi
         have := f r (Nat.le_refl _) a
         rw [hd'] at this; cases this
 
+/-! ## backward search on positions -/
+
+/-- last position of `[y-n, y)` whose byte is unmapped (→ `unmapped`) or whose bit is set (→ `found`). -/
+def bwdSearch (env : MapEnv) (m : Mem) : Nat → Nat → PosRes
+  | 0, _ => .notFound
+  | n + 1, y =>
+    if !env.mapped ((y - 1) / 8) then .unmapped else if bitAt m (y - 1) then .found (y - 1) else bwdSearch env m n (y - 1)
+
+theorem bwdSearch_append (env : MapEnv) (m : Mem) : ∀ n1 n2 y,
+    bwdSearch env m (n1 + n2) y = (bwdSearch env m n1 y).orElse (bwdSearch env m n2 (y - n1)) := by
+  intro n1
+  induction n1 with
+  | zero => intro n2 y; simp [bwdSearch, PosRes.orElse]
+  | succ n1 ih =>
+    intro n2 y
+    rw [Nat.succ_add]
+    simp only [bwdSearch]
+    by_cases h1 : env.mapped ((y - 1) / 8) = true
+    · by_cases h2 : bitAt m (y - 1) = true
+      · simp [h1, h2, PosRes.orElse]
+      · have e : y - (n1 + 1) = y - 1 - n1 := by omega
+        simp [h1, h2, ih n2 (y - 1), e]
+    · simp [h1, PosRes.orElse]
+
+theorem bwdSearch_clear (env : MapEnv) (m : Mem) : ∀ n y, n ≤ y →
+    (∀ p, y - n ≤ p → p < y → env.mapped (p / 8) = true ∧ bitAt m p = false) →
+    bwdSearch env m n y = .notFound := by
+  intro n
+  induction n with
+  | zero => intro y _ _; rfl
+  | succ n ih =>
+    intro y hy h
+    obtain ⟨a, b⟩ := h (y - 1) (by omega) (by omega)
+    simp only [bwdSearch, a, b]
+    simp
+    exact ih (y - 1) (by omega) (fun p h1 h2 => h p (by omega) (by omega))
+
+theorem bwdSearch_hit (env : MapEnv) (m : Mem) (n y q : Nat) (hn : n ≤ y) (h1 : y - n ≤ q) (h2 : q < y)
+    (hclear : ∀ p, q < p → p < y → env.mapped (p / 8) = true ∧ bitAt m p = false)
+    (hm : env.mapped (q / 8) = true) (hb : bitAt m q = true) : bwdSearch env m n y = .found q := by
+  obtain ⟨k, rfl⟩ : ∃ k, n = (y - q - 1) + (k + 1) := ⟨n - (y - q - 1) - 1, by omega⟩
+  rw [bwdSearch_append, bwdSearch_clear env m (y - q - 1) y (by omega) (fun p a b => hclear p (by omega) b)]
+  have e : y - (y - q - 1) - 1 = q := by omega
+  simp [PosRes.orElse, e, bwdSearch, hm, hb]
+
+theorem bwdSearch_unm (env : MapEnv) (m : Mem) (n y q : Nat) (hn : n ≤ y) (h1 : y - n ≤ q) (h2 : q < y)
+    (hclear : ∀ p, q < p → p < y → env.mapped (p / 8) = true ∧ bitAt m p = false)
+    (hm : env.mapped (q / 8) = false) : bwdSearch env m n y = .unmapped := by
+  obtain ⟨k, rfl⟩ : ∃ k, n = (y - q - 1) + (k + 1) := ⟨n - (y - q - 1) - 1, by omega⟩
+  rw [bwdSearch_append, bwdSearch_clear env m (y - q - 1) y (by omega) (fun p a b => hclear p (by omega) b)]
+  have e : y - (y - q - 1) - 1 = q := by omega
+  simp [PosRes.orElse, e, bwdSearch, hm]
+
+theorem bwdSearch_never (env : MapEnv) (m : Mem) : ∀ n y, n ≤ y →
+    (∀ p, y - n ≤ p → p < y → env.mapped (p / 8) = true → bitAt m p = false) →
+    ∀ q, bwdSearch env m n y ≠ .found q := by
+  intro n
+  induction n with
+  | zero => intro y _ _ q; simp [bwdSearch]
+  | succ n ih =>
+    intro y hy h q
+    simp only [bwdSearch]
+    by_cases h1 : env.mapped ((y - 1) / 8) = true
+    · have := h (y - 1) (by omega) (by omega) h1
+      simp only [h1, this]
+      simp
+      exact ih (y - 1) (by omega) (fun p a b => h p (by omega) (by omega)) q
+    · simp [h1]
+
+theorem bwdSearch_mapped (env : MapEnv) (m : Mem) : ∀ n y, n ≤ y →
+    (∀ p, y - n ≤ p → p < y → env.mapped (p / 8) = true) →
+    (bwdSearch env m n y = .notFound ∧ ∀ p, y - n ≤ p → p < y → bitAt m p = false) ∨
+    (∃ q, y - n ≤ q ∧ q < y ∧ bwdSearch env m n y = .found q ∧ bitAt m q = true) := by
+  intro n
+  induction n with
+  | zero => intro y _ _; exact Or.inl ⟨rfl, fun p a b => by omega⟩
+  | succ n ih =>
+    intro y hy h
+    have h1 := h (y - 1) (by omega) (by omega)
+    simp only [bwdSearch, h1]
+    by_cases h2 : bitAt m (y - 1) = true
+    · exact Or.inr ⟨y - 1, by omega, by omega, by simp [h2], h2⟩
+    · rcases ih (y - 1) (by omega) (fun p a b => h p (by omega) (by omega)) with ⟨a, b⟩ | ⟨q, a, b, c, d⟩
+      · refine Or.inl ⟨by simp [h2, a], fun p p1 p2 => ?_⟩
+        by_cases e : p = y - 1
+        · subst e; simpa using h2
+        · exact b p (by omega) (by omega)
+      · exact Or.inr ⟨q, by omega, by omega, by simp [h2, c], d⟩
+
+/-! ## the visitor over reversed ranges -/
+
+/-- the first result of the visitor that is not `notFound`. -/
+def visitRes (one : BBR → FindRes) : List BBR → FindRes
+  | [] => .notFound
+  | r :: rs =>
+    match one r with
+    | .notFound => visitRes one rs
+    | x => x
+
+def findData (s : Spec) : FindRes → Option Nat
+  | .found addr bit => some (metaToData s (alignMeta s addr bit).1 (alignMeta s addr bit).2)
+  | _ => none
+
+theorem findVisit_eq (s : Spec) (one : BBR → FindRes) (L : List BBR) :
+    findVisit s one L = findData s (visitRes one L) := by
+  induction L with
+  | nil => rfl
+  | cons r rs ih =>
+    simp only [findVisit, visitRes]
+    cases one r with
+    | found a b => rfl
+    | unmapped => rfl
+    | notFound => exact ih
+
+theorem visitRes_append (one : BBR → FindRes) (l1 l2 : List BBR) :
+    visitRes one (l1 ++ l2) = match visitRes one l1 with | .notFound => visitRes one l2 | x => x := by
+  induction l1 with
+  | nil => rfl
+  | cons r rs ih =>
+    simp only [List.cons_append, visitRes]
+    cases one r with
+    | found a b => rfl
+    | unmapped => rfl
+    | notFound => exact ih
+
+theorem findData_toFind (s : Spec) (p : PosRes) : findData s p.toFind = resData s p := by
+  cases p <;> rfl
+
+/-- running the visitor of `find_prev_non_zero_value_fast` over the tiling ranges in reverse is the
+position-level backward search over the whole interval. -/
+theorem findVisit_tiles_bwd (env : MapEnv) (s : Spec) (m : Mem) (one : BBR → FindRes) (y0 : Nat)
+    (hone : ∀ r : BBR, r.wf → r.hi ≤ y0 → one r = (bwdSearch env m (r.hi - r.lo) r.hi).toFind)
+    {x y : Nat} {L : List BBR} (h : Tiles x L y) (hy : y ≤ y0) :
+    findVisit s one L.reverse = resData s (bwdSearch env m (y - x) y) := by
+  rw [findVisit_eq, ← findData_toFind]
+  congr 1
+  induction L generalizing x with
+  | nil => simp only [Tiles] at h; subst h; simp [visitRes, bwdSearch, PosRes.toFind]
+  | cons r rs ih =>
+    obtain ⟨h1, h2, h3⟩ := h
+    have hlt := r.lo_lt_hi h2
+    have hle := tiles_le h3
+    have e : y - x = (y - r.hi) + (r.hi - r.lo) := by omega
+    have e2 : y - (y - r.hi) = r.hi := by omega
+    rw [List.reverse_cons, visitRes_append, ih h3, e, bwdSearch_append, e2]
+    simp only [visitRes]
+    rw [hone r h2 (by omega)]
+    cases bwdSearch env m (y - r.hi) y with
+    | found p => rfl
+    | unmapped => rfl
+    | notFound =>
+      simp only [PosRes.toFind, PosRes.orElse]
+      cases bwdSearch env m (r.hi - r.lo) r.hi <;> rfl
+
+/-! ## region level, backward -/
+
+/-- the last of the `n` regions below `r` (`r-1, r-2, …`) whose data is unmapped (→ `none`) or whose
+field is non-zero (→ its start). -/
+def regionBwd (env : MapEnv) (s : Spec) (m : Mem) : Nat → Nat → Option Nat
+  | 0, _ => none
+  | n + 1, r =>
+    if !env.mapped ((r - 1) * 2 ^ s.logRegion) then none
+    else if absArr m s (r - 1) ≠ 0 then some ((r - 1) * 2 ^ s.logRegion) else regionBwd env s m n (r - 1)
+
+theorem fieldBase_sub (s : Spec) (r0 r1 : Nat) (h : r0 ≤ r1) :
+    fieldBase s r1 - fieldBase s r0 = (r1 - r0) * 2 ^ s.logBits := by
+  unfold fieldBase
+  rw [Nat.sub_mul]
+  have := Nat.mul_le_mul_right (2 ^ s.logBits) h
+  omega
+
+theorem fieldBase_pred (s : Spec) (r : Nat) (hr : 1 ≤ r) : fieldBase s r - 2 ^ s.logBits = fieldBase s (r - 1) := by
+  have := fieldBase_succ s (r - 1)
+  have e : r - 1 + 1 = r := by omega
+  rw [e] at this
+  omega
+
+/-- **fast = region level (backward)**. -/
+theorem bwd_fast_region (env : MapEnv) (s : Spec) (hs : s.ok) (hal : s.start % 2 ^ (s.logBits - 3) = 0)
+    (hlr : s.logBits < 3 → s.logBits ≤ s.logRegion) (m : Mem) (hm : ByteMem m) : ∀ n r, n ≤ r →
+    r * 2 ^ s.logRegion ≤ 2 ^ 64 → MapConsistent env s m (r - n) r false →
+    resData s (bwdSearch env m (n * 2 ^ s.logBits) (fieldBase s r)) = regionBwd env s m n r := by
+  have hR := Nat.two_pow_pos s.logRegion
+  have hW := Nat.two_pow_pos s.logBits
+  intro n
+  induction n with
+  | zero => intro r _ _ _; simp [bwdSearch, resData, regionBwd]
+  | succ n ih =>
+    intro r hnr h64 hmc
+    have hfb := fieldBase_pred s r (by omega)
+    have hfs : fieldBase s r = fieldBase s (r - 1) + 2 ^ s.logBits := by
+      have := fieldBase_succ s (r - 1)
+      have e : r - 1 + 1 = r := by omega
+      rw [e] at this; exact this
+    have hsub : fieldBase s r - (n + 1) * 2 ^ s.logBits = fieldBase s (r - (n + 1)) := by
+      have := fieldBase_sub s (r - (n + 1)) r (by omega)
+      have e : r - (r - (n + 1)) = n + 1 := by omega
+      rw [e] at this
+      have := fieldBase_mono s (r := r - (n + 1)) (r' := r) (by omega)
+      omega
+    have hge : (n + 1) * 2 ^ s.logBits ≤ fieldBase s r := by
+      have := fieldBase_sub s (r - (n + 1)) r (by omega)
+      have e : r - (r - (n + 1)) = n + 1 := by omega
+      rw [e] at this
+      omega
+    simp only [regionBwd]
+    by_cases hd : env.mapped ((r - 1) * 2 ^ s.logRegion) = true
+    · simp only [hd, Bool.not_true, Bool.false_eq_true, if_false]
+      have e : (n + 1) * 2 ^ s.logBits = 2 ^ s.logBits + n * 2 ^ s.logBits := by rw [Nat.add_mul n 1, Nat.one_mul]; omega
+      rw [e, bwdSearch_append, hfb]
+      have hall : ∀ p, fieldBase s r - 2 ^ s.logBits ≤ p → p < fieldBase s r → env.mapped (p / 8) = true :=
+        fun p a b => hmc.1 (r - 1) (by omega) (by omega) hd p ⟨by omega, by omega⟩
+      have hz := absArr_eq_zero_iff m hm s hs (r - 1)
+      rcases bwdSearch_mapped env m _ _ (by omega) hall with ⟨a, b⟩ | ⟨q, a, b, c, d⟩
+      · have h0 : absArr m s (r - 1) = 0 := hz.2 (fun i hi => b _ (by omega) (by omega))
+        rw [a]
+        simp only [PosRes.orElse, h0, ne_eq, not_true_eq_false, if_false]
+        have e2 : r - 1 - n = r - (n + 1) := by omega
+        exact ih (r - 1) (by omega) (Nat.le_trans (Nat.mul_le_mul_right _ (by omega)) h64)
+          (by rw [e2]; exact hmc.mono (Nat.le_refl _) (by omega))
+      · have h0 : absArr m s (r - 1) ≠ 0 := by
+          intro h0
+          have := hz.1 h0 (q - fieldBase s (r - 1)) (by omega)
+          have e3 : fieldBase s (r - 1) + (q - fieldBase s (r - 1)) = q := by omega
+          rw [e3, d] at this; cases this
+        rw [c]
+        simp only [PosRes.orElse, h0, ne_eq, not_false_eq_true, if_true]
+        apply resData_found s hs hal hlr (r - 1) q ⟨by omega, by omega⟩
+        have : (r - 1) * 2 ^ s.logRegion < r * 2 ^ s.logRegion := Nat.mul_lt_mul_of_pos_right (by omega) hR
+        omega
+    · have hd' : env.mapped ((r - 1) * 2 ^ s.logRegion) = false := by simpa using hd
+      simp only [hd', Bool.not_false, if_true]
+      have hnever := bwdSearch_never env m ((n + 1) * 2 ^ s.logBits) (fieldBase s r) hge (by
+        intro p a b hpm
+        rw [hsub] at a
+        obtain ⟨r', c1, c2, c3⟩ := field_of_pos s (r - (n + 1)) (n + 1) p a (by
+          have := fieldBase_sub s (r - (n + 1)) r (by omega)
+          have e : r - (r - (n + 1)) = n + 1 := by omega
+          rw [e] at this
+          omega)
+        exact hmc.2 (r - 1) r' (by omega) (by omega) c1 (by omega) (by show r' ≤ r - 1; omega) hd' p c3 hpm)
+      cases hres : bwdSearch env m ((n + 1) * 2 ^ s.logBits) (fieldBase s r) with
+      | found q => exact absurd hres (hnever q)
+      | notFound => rfl
+      | unmapped => rfl
+
+/-! ## the naive backward search is the region-level search -/
+
+theorem findPrevSimpleLoop_eq (env : MapEnv) (henv : env.ok) (s : Spec) (hs : s.ok) (m : Mem) (E : Nat) :
+    ∀ n fuel c grain, n ≤ fuel → n ≤ c → (c + 1) * 2 ^ s.logRegion ≤ 2 ^ 64 →
+    (∀ q, c - n < q → q ≤ c → q * 2 ^ s.logRegion ≥ E) → ¬ ((c - n) * 2 ^ s.logRegion ≥ E) →
+    (∀ x, grain ≤ x → x ≤ c * 2 ^ s.logRegion → env.mapped x = true) →
+    findPrevSimpleLoop env s m E fuel (c * 2 ^ s.logRegion) grain = regionBwd env s m n (c + 1) := by
+  have hR := Nat.two_pow_pos s.logRegion
+  intro n
+  induction n with
+  | zero =>
+    intro fuel c grain _ _ _ _ hE _
+    rw [Nat.sub_zero] at hE
+    cases fuel with
+    | zero => rfl
+    | succ f => simp only [findPrevSimpleLoop, regionBwd, hE, not_false_eq_true, if_true]
+  | succ n ih =>
+    intro fuel c grain hf hc h64 hin hE hcache
+    obtain ⟨f, rfl⟩ : ∃ f, fuel = f + 1 := ⟨fuel - 1, by omega⟩
+    have hge : c * 2 ^ s.logRegion ≥ E := hin c (by omega) (Nat.le_refl _)
+    have hprev : c * 2 ^ s.logRegion - 2 ^ s.logRegion = (c - 1) * 2 ^ s.logRegion := by
+      rw [Nat.sub_mul, Nat.one_mul]
+    have hc64 : c * 2 ^ s.logRegion < 2 ^ 64 := by
+      have : c * 2 ^ s.logRegion < (c + 1) * 2 ^ s.logRegion := Nat.mul_lt_mul_of_pos_right (by omega) hR
+      omega
+    have hnlt : ¬ c * 2 ^ s.logRegion < 2 ^ s.logRegion := by
+      have := Nat.mul_le_mul_right (2 ^ s.logRegion) (by omega : 1 ≤ c)
+      omega
+    have hle1 : (c - 1) * 2 ^ s.logRegion ≤ c * 2 ^ s.logRegion := Nat.mul_le_mul_right _ (by omega)
+    have e1 : c - 1 + 1 = c := by omega
+    have e2 : c - 1 - n = c - (n + 1) := by omega
+    have hrec : ∀ g', (∀ x, g' ≤ x → x ≤ (c - 1) * 2 ^ s.logRegion → env.mapped x = true) →
+        findPrevSimpleLoop env s m E f ((c - 1) * 2 ^ s.logRegion) g' = regionBwd env s m n c := by
+      intro g' hc'
+      have := ih f (c - 1) g' (by omega) (by omega) (by rw [e1]; exact Nat.le_trans (Nat.mul_le_mul_right _ (by omega)) h64)
+        (fun q a b => hin q (by omega) (by omega)) (by rw [e2]; exact hE) hc'
+      rw [e1] at this; exact this
+    simp only [findPrevSimpleLoop, regionBwd, hge, not_true_eq_false, if_false, hprev, load_region s hs m c hc64,
+      Nat.add_sub_cancel, hnlt]
+    by_cases hg : c * 2 ^ s.logRegion < grain
+    · by_cases hmp : env.mapped (c * 2 ^ s.logRegion) = true
+      · simp only [hg, hmp, if_true, Bool.not_true, Bool.false_eq_true, if_false]
+        rw [hrec]
+        intro x a b
+        rw [alignDown_block env henv _ x a (by omega), hmp]
+      · have hmp' : env.mapped (c * 2 ^ s.logRegion) = false := by simpa using hmp
+        simp only [hg, hmp', if_true, Bool.not_false, Bool.false_eq_true, if_false]
+    · have hmp : env.mapped (c * 2 ^ s.logRegion) = true := hcache _ (by omega) (Nat.le_refl _)
+      simp only [hg, hmp, if_false, Bool.not_true, Bool.false_eq_true]
+      rw [hrec]
+      intro x a b
+      exact hcache x a (by omega)
+
+/-- **what the region-level backward search returns**. -/
+theorem regionBwd_some_iff (env : MapEnv) (s : Spec) (m : Mem) : ∀ n r x, n ≤ r → (regionBwd env s m n r = some x ↔
+    ∃ r', r - n ≤ r' ∧ r' < r ∧ x = r' * 2 ^ s.logRegion ∧ absArr m s r' ≠ 0 ∧
+      (∀ q, r' < q → q < r → absArr m s q = 0) ∧ (∀ q, r' ≤ q → q < r → env.mapped (q * 2 ^ s.logRegion) = true)) := by
+  intro n
+  induction n with
+  | zero => intro r x _; simp only [regionBwd]; constructor
+            · intro h; cases h
+            · rintro ⟨r', a, b, _⟩; omega
+  | succ n ih =>
+    intro r x hnr
+    simp only [regionBwd]
+    by_cases hd : env.mapped ((r - 1) * 2 ^ s.logRegion) = true
+    · simp only [hd, Bool.not_true, Bool.false_eq_true, if_false]
+      by_cases h0 : absArr m s (r - 1) ≠ 0
+      · simp only [h0, ne_eq, not_false_eq_true, if_true, Option.some.injEq]
+        constructor
+        · intro h; subst h
+          exact ⟨r - 1, by omega, by omega, rfl, h0, fun q a b => by omega, fun q a b => by
+            have : q = r - 1 := by omega
+            rw [this]; exact hd⟩
+        · rintro ⟨r', a, b, c, d, e, f⟩
+          by_cases hr : r' = r - 1
+          · rw [c, hr]
+          · exact absurd (e (r - 1) (by omega) (by omega)) h0
+      · have h0' : absArr m s (r - 1) = 0 := by simpa using h0
+        simp only [h0', ne_eq, not_true_eq_false, if_false]
+        rw [ih (r - 1) x (by omega)]
+        constructor
+        · rintro ⟨r', a, b, c, d, e, f⟩
+          refine ⟨r', by omega, by omega, c, d, fun q q1 q2 => ?_, fun q q1 q2 => ?_⟩
+          · by_cases hq : q = r - 1
+            · rw [hq]; exact h0'
+            · exact e q q1 (by omega)
+          · by_cases hq : q = r - 1
+            · rw [hq]; exact hd
+            · exact f q q1 (by omega)
+        · rintro ⟨r', a, b, c, d, e, f⟩
+          have hne : r' ≠ r - 1 := by intro hr; rw [hr] at d; exact d h0'
+          exact ⟨r', by omega, by omega, c, d, fun q q1 q2 => e q q1 (by omega), fun q q1 q2 => f q q1 (by omega)⟩
+    · have hd' : env.mapped ((r - 1) * 2 ^ s.logRegion) = false := by simpa using hd
+      simp only [hd', Bool.not_false, if_true]
+      constructor
+      · intro h; cases h
+      · rintro ⟨r', a, b, c, d, e, f⟩
+        have := f (r - 1) (by omega) (by omega)
+        rw [hd'] at this; cases this
+
 end Mmtk.SideMeta
